@@ -364,7 +364,7 @@ func c12exec(j run.Job, a *run.Acc) {
 				gd.MaxEvents, gd.MaxCalls = 60000, 100000
 				// every sequence carries the library's list interpreter: the returned trees are evaluated as well (values, and
 				// the errors of trees with value-less nodes - the empty matches of Optional and Empty)
-				b := gram.Build(g, &gram.Hooks{Inside: gd.Inside, Outside: gd.Outside, Interp: interpreter.Array()})
+				b := gram.Build(g, &gram.Hooks{Budget: gd.LeafTick, Inside: gd.Inside, Outside: gd.Outside, Interp: interpreter.Array()})
 				o := gram.Run(env, b.NTs[nt], 0)
 				if o.Budget != "" {
 					return "", "", 0, "budget"
